@@ -19,13 +19,14 @@ Data dimension 1-2, as in the property.
 import sys
 
 from harness import common as C
-from harness import C02, C04, C05, C09
+from harness import C01, C02, C04, C05, C09
 from harness import cases as CS
 from harness import splinekit as SK
 
 PROP = "C03"
 
 ONTO_R = ["PointwiseAffine/scalar", "PointwiseAffine/vector", "LeakyReLU/2d", "LULinear/D=2", "QRLinear/D=2,H=2", "SVDLinear/D=2,H=2", "NaiveLinear/D=2", "ActNorm/2d", "BatchNorm/eval", "AffineCoupling/D=2", "AdditiveCoupling/D=3", "MaskedAffineAutoregressive/D=2", "Permutation/[1,0]", "IdentityTransform", "CauchyCDFInverse/2d", "Logit/2d"]
+CACHED = ["NaiveLinear/D=2,cached,inverse-first", "LULinear/D=2,cached,inverse-first"]
 
 
 def job(cfg):
@@ -37,6 +38,8 @@ def job(cfg):
         jr = C09.job(sub)
     elif src == "C02":
         jr = C02.job(sub)
+    elif src == "C01":
+        jr = C01.job(sub)
     else:
         jr = C05.job(sub)
     jr["kernel"] = "%s:%s" % (cfg["part"], jr.get("kernel"))
@@ -61,8 +64,15 @@ def configs(tier):
                 if kind == "quadratic" and mode == "tails" and K == 1:
                     continue
                 cfgs.append({"from": "C09", "part": "(2) transformer onto its target interval", "cfg": {"kind": kind, "K": K, "mode": mode, "box": "sym", "timeout": t, "nval": 2}})
-    for name in ONTO_R:
+    # non-default, mutually different floors (min_bin_width != min_bin_height): the heights must still fill the box
+    for kind in ("rq", "quadratic", "cubic"):
+        cfgs.append({"from": "C09", "part": "(2) transformer onto its target interval", "cfg": {"kind": kind, "K": 2, "mode": "box", "box": "unit", "floors": True, "timeout": t, "nval": 2}})
+    for name in ONTO_R + CACHED:
         cfgs.append({"from": "C02", "part": "(2) onto R^D: inverse total and forward(inverse(y)) == y", "cfg": {"type": "module", "case": name, "order": "fi", "timeout": t}})
+    # (4) for the history the property's sampling path takes: evaluation mode, weight cache on, an inverse pass
+    # (sample) first, then log_prob - the forward log-abs-det then comes out of the shared cache
+    for name in CACHED:
+        cfgs.append({"from": "C01", "part": "(4) log-abs-det after a cached inverse pass", "cfg": {"type": "module", "case": name, "timeout": t}})
     for kind in ("StandardNormal", "DiagonalNormal", "ConditionalDiagonalNormal"):
         for shape in ([1], [2]):
             cfgs.append({"from": "C05", "part": "(3) base normaliser", "cfg": {"type": "normal", "kind": kind, "shape": shape, "timeout": t}})
